@@ -96,7 +96,7 @@ pub fn mutate(seed: &[u8], other: &[u8], r: &mut Rng) -> (String, Vec<u8>) {
             }
         };
         let len = b.len();
-        match r.below(11) {
+        match r.below(12) {
             0 => {
                 let p = pos(r, len);
                 b[p] ^= 1 << r.below(8);
@@ -161,6 +161,18 @@ pub fn mutate(seed: &[u8], other: &[u8], r: &mut Rng) -> (String, Vec<u8>) {
                 let blk = b[p..p + n].to_vec();
                 b.splice(p..p, blk);
                 desc.push_str(&format!("dup@{p}+{n};"));
+            }
+            10 => {
+                // a valid multi-byte UTF-8 character in place of (or next to) a byte: text parsers
+                // that advance byte-wise or slice at fixed offsets meet a non-boundary position
+                let p = pos(r, len);
+                let ch = ["é", "ß", "界", "\u{FFFD}", "😀", "\u{0301}"][r.below(6) as usize];
+                if r.below(2) == 0 {
+                    b.splice(p..p + 1, ch.bytes());
+                } else {
+                    b.splice(p..p, ch.bytes());
+                }
+                desc.push_str(&format!("utf8@{p};"));
             }
             _ => {
                 // arithmetic on a byte
